@@ -36,6 +36,14 @@ def cases(seed, tier, broken=()):
         out.append({"kind": "model", "cls": cls, "codec": CODECS[(i // len(CLASSES) + i) % len(CODECS)], "struct": STRUCTS[int(rng.integers(0, len(STRUCTS)))],
                     "attrs": akeys[i % len(akeys)], "coord_attrs": akeys[(i // 2) % len(akeys)], "mseed": int(rng.integers(0, 2**31)),
                     "after_transform": bool(rng.random() < 0.4), "params": str(rng.choice(["default", "lists", "kwargs"]))})
+    # the NAME of the user's arrays is part of the input structure: names equal to a coordinate / dimension of the array, the empty
+    # string, names with a path separator; and user weights named like the coordinate they are given along
+    NAMES = ["lat", "", "u/v", "time", None, "lon"]
+    for i in range({"quick": 12, "thorough": 120, "search": 60}[tier]):
+        cls = ["EOF", "MCA", "EOFRotator", "POP", "ComplexEOF", "CCA", "OPA", "HilbertMCA"][i % 8]
+        out.append({"kind": "model", "cls": cls, "codec": CODECS[i % len(CODECS)], "struct": ["DA", "NaN", "DA", "LIST"][i % 4], "attrs": "plain", "coord_attrs": "plain",
+                    "mseed": int(rng.integers(0, 2**31)), "after_transform": False, "params": "default", "name": NAMES[(i // 2) % len(NAMES)] if i % 6 != 5 else "u",
+                    "wname": "lat" if i % 6 == 5 else None})
     # the attribute codec on generated values
     for i in range({"quick": 40, "thorough": 600, "search": 200}[tier]):
         out.append({"kind": "codec", "vseed": int(rng.integers(0, 2**31)), "depth": int(rng.integers(0, 3)), "where": str(rng.choice(["node", "variable", "coordinate"]))})
@@ -121,6 +129,9 @@ def build(case):
 
     X = with_attrs(field(rng, n, 3, 4, cplx, off=2.0))
     Y = with_attrs(field(rng, n, 3, 3, cplx, off=-1.0) + 0.5 * X.isel(lon=slice(0, 3)).values)
+    if "name" in case:
+        X.name = case["name"]
+        Y.name = case["name"]
     st = case["struct"]
     dim = "time"
 
@@ -226,8 +237,15 @@ def run_model(case):
     codec = case["codec"]
     cc = f"{cls}|{codec}"
     rot = {"n_modes": 2, "power": 1} if "Rotator" in zc else None
+    wts = None
+    if case.get("wname"):
+        first = data[0] if isinstance(data, (tuple, list)) else data
+        w = xr.DataArray(np.linspace(1.0, 2.0, first.sizes["lat"]), dims="lat", coords={"lat": first["lat"].values}, name=case["wname"])
+        wts = (w, w) if zoo.takes_two(zc) else w
+    if "name" in case:
+        cc += f"|name={case.get('name')!r}|wname={case.get('wname')!r}"
     try:
-        m, base = zoo.fit(zc, data, dim, cfg, rot_cfg=rot)
+        m, base = zoo.fit(zc, data, dim, cfg, rot_cfg=rot, weights=wts)
         if "Rotator" in zc:
             # a rotator whose modes had to be RE-ORDERED after the rotation is the non-trivial object to store and rebuild: look
             # for one among a few data sets derived from the same seed (more modes, oblique rotation)
